@@ -196,7 +196,7 @@ func (g *c12Gen) node(depth int) *snode {
 		}
 		savedOnly := g.onlyNames
 		if nd.only {
-			g.onlyNames = []string{}
+			g.onlyNames = []string{"a", "b", "g"} // names that may be globals: visible in every template of the set
 			for _, p := range nd.pairs {
 				g.onlyNames = append(g.onlyNames, p[0])
 			}
@@ -312,7 +312,8 @@ type c12Macro struct {
 }
 
 type sinterp struct {
-	out    strings.Builder
+	globals map[string]string
+	out     strings.Builder
 	g      *c12Gen
 	macros map[string]*c12Macro
 	root   *senv
@@ -387,11 +388,9 @@ func (in *sinterp) run(nodes []*snode, e *senv) {
 			var base map[string]string
 			if n.only {
 				base = map[string]string{}
-				// globals stay visible in every template of the set
-				for k, v := range in.root.base {
-					if strings.HasPrefix(v, "glob_") {
-						base[k] = v
-					}
+				// globals stay visible in every template of the set (context entries are not passed on)
+				for k, v := range in.globals {
+					base[k] = v
 				}
 			} else {
 				base = in.flatten(e)
@@ -542,7 +541,12 @@ func c12Run(c *C) {
 			base[k] = ""
 		}
 	}
-	in := &sinterp{g: g, macros: map[string]*c12Macro{}, items: []string{"i1", "i2"}}
+	in := &sinterp{g: g, macros: map[string]*c12Macro{}, items: []string{"i1", "i2"}, globals: map[string]string{}}
+	for k, v := range globals {
+		if s, ok := v.(string); ok {
+			in.globals[k] = s
+		}
+	}
 	for _, m := range macroDefs {
 		in.macros[m.name] = &c12Macro{params: m.params, body: m.body}
 	}
@@ -633,6 +637,6 @@ func init() {
 		Rule: "random nestings (depth <= 4) of with (both styles, 1-2 pairs), for, set, if (taken / not taken), block, macro definitions and calls, include (static/lazy, with pairs, only, nested) binding names from a pool of four that also exist as context keys and as set globals; a probe [name={{ name }}] is placed before, inside and after every construct and the whole output is compared with a reference environment model (tag-bound > context > globals; with-pairs evaluated outside; one scope per loop; include sees everything visible or only the pairs); " +
 			"every program additionally sorts, reverses, slices and iterates caller slices/maps/struct fields and shadows caller names, and the caller's Context map and the set's Globals are compared (reflect.DeepEqual against a pristine copy) after every execution, successful or failing, with and without globals; one case in eight feeds random valid/invalid context keys and keys clashing with an exported macro. distinct_nontrivial = distinct programs judged.",
 		MinNontriv:  5000,
-		Assumptions: []string{"macro bodies refer only to their parameters, to names they bind themselves and to names no tag binds (what a macro sees of its definition site is unspecified)", "inside an 'only' include only the pairs and names bound inside are probed (visibility of globals there is unspecified)"},
+		Assumptions: []string{"macro bodies refer only to their parameters, to names they bind themselves and to names no tag binds (what a macro sees of its definition site is unspecified)", "inside an 'only' include the pairs, names bound inside and the names of globals are probed (context entries are not passed on, globals are visible in every template)"},
 	})
 }
